@@ -27,6 +27,7 @@ TRUSTED = ['Lean 4.33 kernel', 'axioms: propext, Classical.choice, Quot.sound', 
 
 EMPTY_KEEP_KEY = 'partial_trace-empty-keep'
 VARIANTS = {}      # op line -> the keep_index object that was actually passed (set / shuffled list / tuple / int)
+PT_META = {}       # index of a `pt` op in the op list -> the argument kinds that were actually passed (for failure messages)
 
 
 def guarded(f):
@@ -141,6 +142,7 @@ def pt_ops(ctx):
                 ops.append(f'C17 pt {ds} {ks} {gint_list(rho)}')
                 VARIANTS[ops[-1]] = kv
                 dv = dims_variant(rng, dims)
+                PT_META[len(ops) - 1] = f'rho=complex128 ndarray, dim={dv!r} ({type(dv).__name__}), keep_index={kv!r} ({type(kv).__name__})'
                 impl.append(guarded(lambda: gint_list(checked(ctx, 'partial_trace', numqi.utils.partial_trace, rho, dv, kv))))
                 if len(kcanon) in (1, n - 1):
                     # input classes: integer / float32 real data, a transposed (non-contiguous) view of the same operator
@@ -148,13 +150,25 @@ def pt_ops(ctx):
                     for tag, arr in (('int64', rre.astype(np.int64)), ('float32', rre.astype(np.float32)), ('view', np.ascontiguousarray(rho.T).T)):
                         src = rho if tag == 'view' else rre
                         ops.append(f'C17 pt {ds} {ks} {gint_list(src)}'); VARIANTS[ops[-1]] = kv
+                        PT_META[len(ops) - 1] = f'rho={tag} ndarray, dim={dv!r} ({type(dv).__name__}), keep_index={kv!r} ({type(kv).__name__})'
                         impl.append(guarded(lambda arr=arr: gint_list(np.asarray(checked(ctx, 'partial_trace[' + tag + ']', numqi.utils.partial_trace, arr, dv, kv)))))
                         ctx.count('pt-' + tag)
                 if len(kcanon) in (1, n - 1) or not ctx.quick():
-                    # torch input (no grad): np.einsum converts it, the result is a numpy array with the same entries
-                    ops.append(ops[-1]); VARIANTS[ops[-1]] = kv
-                    impl.append(guarded(lambda: gint_list(np.asarray(numqi.utils.partial_trace(torch.tensor(rho), dims, kv)))))
-                    ctx.count('pt-torch-input')
+                    # torch input: `numqi.utils.partial_trace` is documented for np.ndarray only (the property's "both backends" is about
+                    # partial_trace_ABk_to_AB).  If the function happens to accept a tensor, the entries must be right; a rejection
+                    # (any exception) is a note, not a difference.
+                    try:
+                        r_t = numqi.utils.partial_trace(torch.tensor(rho), dims, kv)
+                    except Exception as e_t:
+                        ctx.count('pt-torch-input-rejected')
+                        if not PT_META.get('torch-note'):
+                            PT_META['torch-note'] = True
+                            ctx.note(f'numqi.utils.partial_trace is a numpy-only function: torch input not accepted ({type(e_t).__name__}); not part of the property')
+                    else:
+                        ops.append(f'C17 pt {ds} {ks} {gint_list(rho)}'); VARIANTS[ops[-1]] = kv
+                        PT_META[len(ops) - 1] = f'rho=torch.Tensor complex128, dim={dims!r} (tuple), keep_index={kv!r} ({type(kv).__name__})'
+                        impl.append(guarded(lambda: gint_list(np.asarray(r_t))))
+                        ctx.count('pt-torch-input')
             else:
                 m = 40
                 xs = nrng.integers(0, D, size=m); ys = nrng.integers(0, D, size=m)
@@ -457,13 +471,18 @@ def correspondence(ctx):
     # empty keep set: the model returns the 1x1 matrix [trace]; a crash of the implementation there is reported through the
     # finding channel (stable key) with the concrete input instead of as an anonymous correspondence difference
     keep_ops, keep_impl, keep_model = [], [], []
-    for op, a, b in zip(ops, impl, model):
+    for j, (op, a, b) in enumerate(zip(ops, impl, model)):
         t = op.split(' ')
         if t[1] in ('pt', 'pts') and t[3] == '-' and a != b and a.startswith('error:'):
-            ctx.fail(EMPTY_KEEP_KEY, f'partial_trace(rho, dim={t[2]}, keep_index=set()) raises {a[6:]} instead of returning [[trace]]',
-                     dict(op='partial_trace', dims=[int(x) for x in t[2].split(';')], keep=[], observed=a, required='1x1 matrix holding the trace: ' + b[:60]))
+            dims_t = tuple(int(x) for x in t[2].split(';'))
+            passed = PT_META.get(j, f'rho=complex128 ndarray, dim={dims_t!r}, keep_index={VARIANTS.get(op, set())!r}')
+            ctx.fail(EMPTY_KEEP_KEY, f'partial_trace with an empty keep set raises {a[6:]} instead of returning [[trace]] (arguments: {passed})',
+                     dict(op='partial_trace', dims=list(dims_t), keep=[], arguments=passed, observed=a, required='1x1 matrix holding the trace: ' + b[:60]))
             continue
         keep_ops.append(op); keep_impl.append(a); keep_model.append(b)
+    # a rejection is a rejection: which exception class / message the implementation (or the model's label) uses must not matter
+    canon = lambda x: 'error' if isinstance(x, str) and x.startswith('error') else x
+    keep_impl = [canon(x) for x in keep_impl]; keep_model = [canon(x) for x in keep_model]
     common.compare(ctx, keep_ops, keep_impl, keep_model, nontrivial=nontrivial)
     ctx.extra['exhaustive'] = not ctx.quick()
     ctx.extra['exhaustive_domain'] = ('all keep-subsets of all dimension lists of length 2..5 with entries 2..4; Dicke (n,d) in 1..6 x 2..5'
@@ -546,7 +565,7 @@ def probe(ctx):
             rep = dict(op='partial_trace', dims=list(dims), keep=list(keep), keep_index_passed=repr(kv), rho_seed=ctx.np_seed + 2)
             got = guarded(lambda: numqi.utils.partial_trace(rho, dims, kv))
             if isinstance(got, str) and len(keep) == 0:
-                ctx.fail(EMPTY_KEEP_KEY, f'partial_trace(rho, dim={dims}, keep_index=set()) raises {got[6:]} instead of returning [[trace]]', rep); continue
+                ctx.fail(EMPTY_KEEP_KEY, f'partial_trace(rho, dim={dims!r}, keep_index={kv!r}) raises {got[6:]} instead of returning [[trace]]', rep); continue
             if isinstance(got, str):
                 ctx.fail('partial_trace-raises', f'partial_trace raises {got} for dims={dims}, keep={keep}', rep); continue
             want = explicit_partial_trace(rho, dims, keep)
